@@ -2001,6 +2001,9 @@ def replace_nested_loops_with_set_list_comp(source: str) -> str:
             bound_names = _names_in(*(comp.target for comp in generators))
             if len(node.body) == 2:
                 bound_names |= {m.container.id}
+                # ... so the loop cannot depend on what the container was in the previous iteration
+                if _is_read_in(m.container.id, [m.expression, *generators]):
+                    continue
             if _is_read_after_loop(bound_names, outermost_for, root):
                 continue
 
